@@ -246,7 +246,7 @@ var c08ups = map[*router.VerifRouter]*c08up{}
 // c08markerFile: an ip marker that puts every client address the C08/C19 harness uses into ONE group with a
 // non-empty label ("lan"): what is stored for a client (by the request path or by a background refresh) must be
 // stored under the client's group, not under the unmarked one.
-var c08markerFile = func() string {
+func c08markerFile() string {
 	f, err := os.CreateTemp("", "mvh-c08-marker-*.txt")
 	if err != nil {
 		panic("harness: marker file: " + err.Error())
@@ -254,15 +254,16 @@ var c08markerFile = func() string {
 	defer f.Close()
 	f.WriteString("10.1.0.0,10.1.255.255,lan\n127.0.0.1,127.0.0.1,lan\n")
 	return f.Name()
-}()
+}
 
 func c08newRouter(max int, mem int) *router.VerifRouter {
 	cfg := &router.Config{
 		Upstreams: []router.UpstreamConfig{{Tag: "u", Addr: "udp://127.0.0.1:9"}},
 		Rules:     []router.RuleConfig{{Forward: "u"}},
-		Cache:     router.CacheConfig{MemSize: mem, MaximumTTL: max, IpMarker: c08markerFile},
+		Cache:     router.CacheConfig{MemSize: mem, MaximumTTL: max, IpMarker: c08markerFile()},
 	}
 	r, err := router.VerifRun(cfg)
+	os.Remove(cfg.Cache.IpMarker) // read at start-up only
 	if err != nil {
 		panic("harness: VerifRun: " + err.Error())
 	}
